@@ -18,7 +18,7 @@ PROP = 'C15'
 RULE = ('matrix = resource type (workflow, workbook, action, environment, '
         'code source, dynamic action, cron trigger, event trigger, execution '
         '+ its task and action execution, member) x scope x actor relation '
-        '(other project / member pending, accepted, rejected / admin) x '
+        '(other project / member pending, accepted, rejected / admin / third project while another one is an accepted member / owner of same-named resources) x '
         'operation (REST get, list, update, delete, execute/use; db-api get, '
         'load, update, delete under the foreign context; expression '
         'functions). Every point is a case; non-trivial = the target '
@@ -30,8 +30,11 @@ PUBLIC_TYPES = ('workflow', 'workbook', 'action', 'environment',
                 'event_trigger')
 
 
-def make_fixtures(owner, scope):
-    """All resource types as `owner` with the given scope."""
+def make_fixtures(owner, scope, tolerant=False):
+    """All resource types as `owner` with the given scope.  tolerant: a
+    refused creation (a workbook whose member names are taken by a public
+    workbook of another project) is skipped; operations on that name then
+    address the foreign public resource."""
     from mv import sim, enginerun
     from mistral.services import workbooks as wb_service
     from mistral.services import adhoc_actions
@@ -42,7 +45,14 @@ def make_fixtures(owner, scope):
     try:
         wfs = sim.create_workflows(fx.WF_TEXT % 'shared_wf', scope=scope)
         f['workflow'] = {'id': wfs[0].id, 'name': 'shared_wf'}
-        wb_service.create_workbook_v2(fx.WB_TEXT % 'shared_wb', scope=scope)
+        try:
+            wb_service.create_workbook_v2(fx.WB_TEXT % 'shared_wb',
+                                          scope=scope)
+        except Exception:
+            if not tolerant:
+                raise
+            sim._cleanup_session()
+            f['skipped'] = ['workbook']
         f['workbook'] = {'id': None, 'name': 'shared_wb'}
         adhoc_actions.create_actions(fx.ACT_TEXT % 'shared_act', scope=scope)
         f['action'] = {'name': 'shared_act'}
@@ -210,6 +220,11 @@ def rest_ops(f):
         ('member', 'self_add', 'POST', '/v2/workflows/%s/members' % wf,
          {'member_id': 'projB'}, None, 'owner_only'),
     ]
+    # every collection once more with all_projects=true
+    for (rtype, op, http, url, body, text, kind) in list(ops):
+        if kind == 'list' and op == 'list' and '?' not in url:
+            ops.append((rtype, 'list_all_projects', 'GET',
+                        url + '?all_projects=true', None, None, 'list'))
     return ops
 
 
@@ -310,18 +325,25 @@ def run_block(scope, relation, st):
     viol = []
     A = rest.make_ctx('projA')
     B = rest.make_ctx('projB', admin=(relation == 'admin'))
+    if relation == 'bystander':
+        # projB is an accepted member of A's workflow; the actor is a third
+        # project that was never offered anything
+        B = rest.make_ctx('projC')
+    if relation in ('collision', 'collision_b_first'):
+        return run_collision(scope, st, A, B, relation)
 
     def fresh():
         sim.reset()
         f = make_fixtures(A, scope)
-        if relation in ('pending', 'accepted', 'rejected'):
+        if relation in ('pending', 'accepted', 'rejected', 'bystander'):
             sim.auth_context.set_ctx(A)
             try:
                 with sim.db_api.transaction():
                     sim.db_api.create_resource_member({
                         'resource_id': f['workflow']['id'],
                         'resource_type': 'workflow', 'member_id': 'projB',
-                        'status': relation})
+                        'status': 'accepted' if relation == 'bystander'
+                        else relation})
             finally:
                 sim.auth_context.set_ctx(sim.CTX)
         # B owns resources with the same names (collisions)
@@ -415,7 +437,7 @@ def run_block(scope, relation, st):
                     dirty = True
                     pid = (data or {}).get('project_id') \
                         if isinstance(data, dict) else None
-                    if pid not in (None, 'projB'):
+                    if pid not in (None, B.project_id):
                         viol.append({'kind': 'created-row-wrong-project',
                                      'detail': dict(case, project=pid)})
         elif kind == 'owner_only':
@@ -515,8 +537,118 @@ def run_block(scope, relation, st):
     return viol
 
 
+def _owned(dump, project):
+    tag = '"%s"' % project
+    return {t: [r for r in rows if tag in r] for t, rows in dump.items()}
+
+
+def run_collision(scope, st, A, B, relation='collision'):
+    """Project B owns resources with the same names as A's (A's have the
+    given scope, B's are private).  Whatever B does by name or by its own
+    ids must leave every row of A untouched, must not hand out A's private
+    rows, and what B creates belongs to B."""
+    from mv import sim, rest
+    viol = []
+
+    def fresh():
+        sim.reset()
+        if relation == 'collision':
+            fa = make_fixtures(A, scope)
+            fb = make_fixtures(B, 'private', tolerant=True)
+        else:
+            # B's rows come first in every table
+            fb = make_fixtures(B, 'private')
+            fa = make_fixtures(A, scope, tolerant=True)
+        return fa, fb
+
+    fa, fb = fresh()
+    ops = [o for o in rest_ops(fb)]
+    i = 0
+    dirty = False
+    while i < len(ops):
+        if dirty:
+            fa, fb = fresh()
+            ops = [o for o in rest_ops(fb)]
+            dirty = False
+        (rtype, op, http, url, body, text, kind) = ops[i]
+        i += 1
+        if kind == 'owner_only':
+            continue
+        before = rest.db_dump()
+        status, data = rest.request(B, http, url, body=body, text=text)
+        after = rest.db_dump()
+        a_changed = rest.dump_diff(_owned(before, 'projA'),
+                                   _owned(after, 'projA'))
+        changed = rest.dump_diff(before, after)
+        dirty = bool(changed)
+        case = {'layer': 'rest', 'type': rtype, 'op': op, 'scope': scope,
+                'relation': relation, 'status': status}
+        st.case(runner.fp(['rest', rtype, op, scope, relation]), True,
+                ['rest', 'type_' + rtype, 'kind_' + kind,
+                 'relation_' + relation, 'scope_' + scope,
+                 'status_%d' % status], case)
+        if a_changed:
+            viol.append({'kind': 'own-named-operation-changed-foreign-rows',
+                         'detail': dict(case, diff=a_changed)})
+        if kind == 'read' and scope == 'private' and status == 200 and \
+                isinstance(data, dict):
+            if data.get('project_id') not in (None, 'projB'):
+                viol.append({'kind': 'foreign-private-resource-readable',
+                             'detail': dict(case,
+                                            project=data.get('project_id'))})
+        if kind == 'list' and scope == 'private' and isinstance(data, dict):
+            for v in data.values():
+                if isinstance(v, list):
+                    for it in v:
+                        if isinstance(it, dict) and it.get(
+                                'project_id') == 'projA':
+                            viol.append({
+                                'kind': 'foreign-private-resource-listed',
+                                'detail': case})
+    # db-api by name under B
+    fa, fb = fresh()
+    dirty = False
+    for k, (rtype, fn, args, kind) in enumerate(db_ops(fb)):
+        if dirty:
+            fa, fb = fresh()
+            (rtype, fn, args, kind) = db_ops(fb)[k]
+            dirty = False
+        before = rest.db_dump()
+        sim.auth_context.set_ctx(B)
+        res, err, proj = None, None, None
+        try:
+            with sim.db_api.transaction():
+                res = getattr(sim.db_api, fn)(*args)
+                proj = getattr(res, 'project_id', None)
+        except Exception as e:
+            err = type(e).__name__
+        finally:
+            sim.auth_context.set_ctx(sim.CTX)
+            sim._cleanup_session()
+        after = rest.db_dump()
+        a_changed = rest.dump_diff(_owned(before, 'projA'),
+                                   _owned(after, 'projA'))
+        dirty = bool(rest.dump_diff(before, after))
+        case = {'layer': 'db_api', 'type': rtype, 'fn': fn, 'scope': scope,
+                'relation': relation, 'error': err}
+        st.case(runner.fp(['db', rtype, fn, str(args[0])[:6], scope,
+                           relation]), True,
+                ['db_api', 'type_' + rtype, 'kind_' + kind,
+                 'relation_' + relation, 'scope_' + scope,
+                 'raised' if err else 'returned'], case)
+        if a_changed:
+            viol.append({'kind': 'own-named-operation-changed-foreign-rows',
+                         'detail': dict(case, diff=a_changed)})
+        if kind in ('read', 'load') and scope == 'private' and \
+                proj not in (None, 'projB'):
+            viol.append({'kind': 'db-api-returned-foreign-private-row',
+                         'detail': dict(case, project=proj)})
+    return viol
+
+
 BLOCKS = [(s, r) for s in ('private', 'public')
-          for r in ('none', 'pending', 'accepted', 'rejected', 'admin')]
+          for r in ('none', 'pending', 'accepted', 'rejected', 'admin',
+                    'bystander', 'collision', 'collision_b_first')]
 
 
 def shard_main(shard, nshards, seed, tier, opts):
@@ -569,8 +701,8 @@ def replay(path):
 
 def main(tier, seed):
     t0 = time.time()
-    results = runner.run_shards('mv.props.c15', 'shard_main', 10, seed, tier,
-                                {}, procs=10)
+    results = runner.run_shards('mv.props.c15', 'shard_main', 16, seed, tier,
+                                {}, procs=16)
     stats = runner.Stats.merge([r['stats'] for r in results], max_samples=8)
     herrs = [h for r in results for h in r['harness_errors']]
     failures = [f for r in results for f in r['failures']]
